@@ -265,3 +265,94 @@ def _place_is_field(body, prog, p, adt_suffix, field):
             n = field_name(prog, base, int(e[1:]))
             return n == field
     return False
+
+
+def const_switch_targets(body):
+    """block -> the only feasible successor, for SwitchInt terminators whose discriminant is a local assigned a
+    boolean constant exactly once (cfg!(..) after const folding)"""
+    out = {}
+    defs = body.defs()
+    for i, sw in body.terms("SwitchInt"):
+        p = op_place(sw["discr"])
+        if not p or p["p"]:
+            continue
+        ds = defs.get(p["l"], [])
+        if len(ds) != 1 or ds[0][1] == "term":
+            continue
+        rv = ds[0][2]["rv"]
+        if rv["k"] != "Use":
+            continue
+        c = op_const(rv["ops"][0])
+        if not c or "bool" not in c:
+            continue
+        val = "1" if c["bool"] else "0"
+        tgt = None
+        for v, b in sw["targets"]:
+            if v == val:
+                tgt = b
+        out[i] = tgt if tgt is not None else sw["otherwise"]
+    return out
+
+
+def feasible_paths_avoiding(body, start, goals, avoid):
+    """like Body.paths_avoiding but constant (cfg!) switches only follow their feasible edge"""
+    cst = const_switch_targets(body)
+    goals = set(goals)
+    avoid = set(avoid)
+    if start in avoid:
+        return False
+    seen = {start}
+    dq = deque([start])
+    while dq:
+        i = dq.popleft()
+        if i in goals:
+            return True
+        succ = [cst[i]] if i in cst else body.succ(i)
+        for s2 in succ:
+            if s2 not in seen and s2 not in avoid:
+                seen.add(s2)
+                dq.append(s2)
+    return False
+
+
+def feasible_reachable(body):
+    cst = const_switch_targets(body)
+    seen = {0}
+    dq = deque([0])
+    while dq:
+        i = dq.popleft()
+        succ = [cst[i]] if i in cst else body.succ(i)
+        for s2 in succ:
+            if s2 not in seen:
+                seen.add(s2)
+                dq.append(s2)
+    return seen
+
+
+def resolve_matches(body, target):
+    """`matches!(x, P)` lowers to: switch on discr -> arm blocks assigning a bool constant to a temp and jumping
+    to a join block that switches on the temp. Given an arm block, return the block control reaches after the join
+    switch (or the arm block itself when the pattern is not present)."""
+    blk = body.blocks[target]
+    t = blk["term"]
+    if t["k"] != "Goto":
+        return target
+    assigns = [s for s in blk["stmts"] if s["k"] == "Assign"]
+    if len(assigns) != 1 or assigns[0]["place"]["p"] or assigns[0]["rv"]["k"] != "Use":
+        return target
+    c = op_const(assigns[0]["rv"]["ops"][0])
+    if not c or "bool" not in c:
+        return target
+    l = assigns[0]["place"]["l"]
+    join = t["target"]
+    jt = body.blocks[join]["term"]
+    if jt["k"] != "SwitchInt" or body.blocks[join]["stmts"]:
+        return target
+    p = op_place(jt["discr"])
+    if not p or p["l"] != l:
+        return target
+    val = "1" if c["bool"] else "0"
+    for v, b in jt["targets"]:
+        if v == val:
+            return b
+    return jt["otherwise"]
